@@ -18,6 +18,9 @@ use std::{
 mod beam_waist;
 pub use beam_waist::*;
 
+/// Crystal angles below this use a fixed finite difference step for the walkoff
+const WALKOFF_MIN_STEP_ANGLE: f64 = 0.05;
+
 /// Create a unit direction vector from polar coordinates
 pub fn direction_from_polar(phi: Angle, theta: Angle) -> Direction {
   let theta_rad = *(theta / ucum::RAD);
@@ -456,7 +459,13 @@ impl Beam {
 
     // derrivative at theta
     let theta = *(crystal_setup.theta / ucum::RAD);
-    let np_prime = derivative_at(ne_of_theta, theta);
+    // the relative step of derivative_at degenerates to rounding noise near theta = 0
+    let np_prime = if theta.abs() < WALKOFF_MIN_STEP_ANGLE {
+      let h = f64::EPSILON.powf(1. / 3.) * WALKOFF_MIN_STEP_ANGLE;
+      0.5 * (ne_of_theta(theta + h) - ne_of_theta(theta - h)) / h
+    } else {
+      derivative_at(ne_of_theta, theta)
+    };
     let np = *self.refractive_index(self.frequency, crystal_setup);
 
     // walkoff \tan(\rho) = -\frac{1}{n_e} \frac{dn_e}{d\theta}
